@@ -182,6 +182,20 @@ Theorem C01_candidates_loop_spec : forall (d fuel fend : nat) (st : list nat * l
 Proof. intros d fuel fend st. exact (cand_loop_spec d fuel fend st). Qed.
 Print Assumptions C01_candidates_loop_spec.
 
+(** 14. The loop of andLineMatchTree.matches (line skipping, candidate dropping, restart on a later line), modelled
+    operationally (Model/SearchCoreIters.v: al_child / al_children / al_lines over line numbers), answers "found" exactly
+    when the children have candidates on a common line -- whichever child is taken as the base (Go: the one with the
+    fewest candidates); the model's [same_line] computes the same predicate with the first child as base. *)
+Theorem C01_andline_loop_exact : forall (line : nat -> nat) (vs : list (list nat)) (f : nat),
+  (forall a b, a <= b -> line a <= line b) -> Forall inc vs -> f < length vs ->
+  (andline_alg line vs f = true <-> common_line line vs).
+Proof. exact andline_alg_spec. Qed.
+Print Assumptions C01_andline_loop_exact.
+Theorem C01_same_line_is_common_line : forall (line : nat -> nat) (v0 : list nat) (vs : list (list nat)),
+  existsb (fun o0 => forallb (fun v => existsb (fun o => line o =? line o0) v) (v0 :: vs)) v0 = true <-> common_line line (v0 :: vs).
+Proof. exact same_line_expr_spec. Qed.
+Print Assumptions C01_same_line_is_common_line.
+
 (** the frequency function used by the correspondence runner satisfies the frequency hypothesis *)
 Lemma count_freq_sound : forall orbit c fn cs g, count_freq orbit c fn cs g = 0%N -> post orbit (ix_tris c fn) cs g = [].
 Proof.
@@ -291,4 +305,8 @@ Proof. intros x H. unfold alower in H. destruct ((65 <=? x) && (x <=? 90))%N eqn
 (** distance iterator: posting lists of two trigrams at distance 2; hits 3 and 10; candidates before position 8 *)
 Example ex_dist : let st := dmake 2 [1; 3; 6; 10] [4; 5; 9; 12] in
   dfirst st = Some 3 /\ dfirst (dnext 2 3 st) = Some 10 /\ fst (cand_loop 5 2 8 st) = [3].
+Proof. vm_compute. auto. Qed.
+(** same-line loop: lines are 10 runes long; child 0 has candidates at 3, 25; child 1 at 14, 27; child 2 at 21 -> common line 2 *)
+Example ex_andline : andline_alg (fun o => o / 10) [[3; 25]; [14; 27]; [21]] 2 = true /\
+                     andline_alg (fun o => o / 10) [[3; 25]; [14; 37]; [21]] 2 = false.
 Proof. vm_compute. auto. Qed.
